@@ -145,13 +145,17 @@ class Accepts(Contract):
     merge = True
     replayable = False
 
-    def __init__(self, family, value, documented=True):
-        self.family, self.value, self.documented = family, value, documented
-        self.name = f"{family}={value}"
+    def __init__(self, family, value, documented=True, nmonths=None):
+        # nmonths: a horizon other than the 120 months every shipped file uses ("continued" = until the last simulated
+        # month, whatever the horizon)
+        self.family, self.value, self.documented, self.nmonths = family, value, documented, nmonths
+        self.name = f"{family}={value}" + (f" with a horizon of {nmonths} months" if nmonths else "")
 
     def inputs(self, S):
         opts = dict(BASE)
         opts[self.family] = self.value
+        if self.nmonths:
+            opts["NMONTHS"] = self.nmonths
         snapshot = dict(opts)
         runner = S.obj(RS, "ScenarioRunner")
         return dict(args=[runner, opts, country_row(S)], opts=opts, snapshot=snapshot)
@@ -171,7 +175,11 @@ class Accepts(Contract):
                 except KeyError:
                     ok.append(V(False))
                     continue
+                if self.nmonths and want == 120 and isinstance(key, tuple) and key[0] == "DELAY":
+                    want = self.nmonths  # "continued": the shut-off month is the end of the horizon
                 ok.append(V(got is want) if isinstance(want, bool) else (V(got == want) if isinstance(want, str) else V(got) == want))
+            if self.nmonths:
+                ok.append(V(consts.get("NMONTHS")) == self.nmonths)
             out["sets_the_documented_constants"] = And(*ok)
         return out
 
@@ -506,6 +514,14 @@ def _mk():
     for i, fl in enumerate(flags):
         cs.append(Setter(by_flag[fl][0], by_flag[flags[(i + 1) % len(flags)]][0]))
     cs.append(Override("MINIMUM_PERCENT_FED_BEFORE_NONHUMAN_CONSUMPTION_ALLOWED", "35", lambda c1: {"MINIMUM_PERCENT_FED_BEFORE_NONHUMAN_CONSUMPTION_ALLOWED": 35}))
+    # the configured minimum share wins over the schedule's own default under EVERY schedule (also the two that set 10)
+    for sh in DOCUMENTED["shutoff"] + ALSO_SUPPORTED.get("shutoff", []):
+        if sh != BASE["shutoff"]:
+            cs.append(Override("MINIMUM_PERCENT_FED_BEFORE_NONHUMAN_CONSUMPTION_ALLOWED", None,
+                               lambda c1, v: {"MINIMUM_PERCENT_FED_BEFORE_NONHUMAN_CONSUMPTION_ALLOWED": v}, rng=(0, 100), base={"shutoff": sh}))
+    # horizons other than 120 months
+    for sh in DOCUMENTED["shutoff"] + ALSO_SUPPORTED.get("shutoff", []):
+        cs.append(Accepts("shutoff", sh, nmonths=84))
     cs.append(Override("RATIO_STOCKS_UNTOUCHED", "0.25", lambda c1: {"RATIO_STOCKS_UNTOUCHED": Fraction(1, 4)}))
     cs.append(Override("kg_meat_per_large_animal", "250", lambda c1: {"kg_meat_per_large_animal": 250}))
     cs.append(Override("CROP_PRODUCTION_MULTIPLIER", "2", crop_mult))
